@@ -162,6 +162,7 @@ def rust_alloc(it, st, fn, args, dest, target):
         while o < size:
             a.cells[o] = (1, 0)
             o += 1
+        a.maxsz = 8
     it.ret_scalar(st, dest, target, Ptr(aid, 0), 8)
 
 
@@ -535,6 +536,7 @@ def verif_formatter(it, st, fn, args, dest, target):
     while o + 8 <= size:
         a.cells[o] = (8, 0)
         o += 8
+    a.maxsz = 8
     it.ret_scalar(st, dest, target, Ptr(aid, 0), 8)
 
 
